@@ -307,12 +307,6 @@ func checkMatrix(r *ev.Run, l libMat, a mat) {
 	}
 	sv := singularValues(a)
 	wellCond := sv[len(sv)-1] >= 0.1
-	sep := true
-	for i := 0; i+1 < len(sv); i++ {
-		if sv[i]-sv[i+1] < 0.1 {
-			sep = false
-		}
-	}
 	nontriv := false
 	if l.inv != nil && math.Abs(det) >= 0.5 {
 		nontriv = true
@@ -355,11 +349,11 @@ func checkMatrix(r *ev.Run, l libMat, a mat) {
 			r.Skipped(1)
 		}
 	}
-	if l.svd != nil && wellCond && sep {
+	if l.svd != nil && wellCond {
 		nontriv = true
 		ui, si, vi := l.svd(m)
 		u, s, v := l.dense(ui), l.dense(si), l.dense(vi)
-		tol := 1e-7 * scale * sv[0] / sv[len(sv)-1]
+		tol := svdPrecision(l.n, sv) * scale * sv[0] / sv[len(sv)-1]
 		if d := u.mul(s).mul(v.t()).maxDiff(a); d > tol {
 			viol("SVD/reconstruct", fmt.Sprintf("U S V^T differs from M by %g", d))
 		}
@@ -376,7 +370,7 @@ func checkMatrix(r *ev.Run, l libMat, a mat) {
 				}
 			}
 			// compared as a multiset: the property asks for reconstruction, not for an order
-			if !(math.Abs(sortedDesc(diag(s))[i]-sv[i]) <= 1e-7*scale*sv[0]/sv[len(sv)-1]) {
+			if !(math.Abs(sortedDesc(diag(s))[i]-sv[i]) <= tol) {
 				viol("SVD/values", fmt.Sprintf("singular values %v on the diagonal of S, reference (sorted) %v", diag(s), sv))
 				break
 			}
@@ -395,12 +389,6 @@ func checkMatrixScaled(r *ev.Run, l libMat, a mat) {
 	sv := singularValues(a)
 	if math.Abs(a.det()) < 0.5 || sv[len(sv)-1] < 0.1 {
 		return
-	}
-	sep := true
-	for i := 0; i+1 < len(sv); i++ {
-		if sv[i]-sv[i+1] < 0.1 {
-			sep = false
-		}
 	}
 	for _, k := range []float64{1.0 / (1 << 20), 1 << 20} {
 		sa := make(mat, len(a))
@@ -443,10 +431,10 @@ func checkMatrixScaled(r *ev.Run, l libMat, a mat) {
 				}
 			}
 		}
-		if l.svd != nil && sep {
+		if l.svd != nil {
 			ui, si, vi := l.svd(m)
 			u, sm, v := l.dense(ui), l.dense(si), l.dense(vi)
-			tol := 1e-7 * sv[0] / sv[len(sv)-1]
+			tol := svdPrecision(l.n, sv) * sv[0] / sv[len(sv)-1]
 			if d := u.mul(sm).mul(v.t()).maxDiff(sa); !(d <= tol*k*sv[0]) {
 				viol("SVD/reconstruct", fmt.Sprintf("U S V^T differs from M by %g", d))
 			}
@@ -466,6 +454,21 @@ func checkMatrixScaled(r *ev.Run, l libMat, a mat) {
 		}
 		r.NontrivialAdd(1)
 	}
+}
+
+// svdPrecision: relative precision asked of a singular-value decomposition. 2x2 and 3x3 use closed forms and meet
+// 1e-7 whether or not singular values coincide. The 4x4 routine finds one singular value as a root of the quartic
+// characteristic polynomial, whose conditioning degrades with the multiplicity of the root; the library's own test
+// states 1e-4 for a quadruple singular value, and that is what is asked here when 4x4 singular values coincide.
+func svdPrecision(n int, sv []float64) float64 {
+	if n == 4 {
+		for i := 0; i+1 < len(sv); i++ {
+			if sv[i]-sv[i+1] < 0.1 {
+				return 1e-4
+			}
+		}
+	}
+	return 1e-7
 }
 
 func sortedDesc(x []float64) []float64 {
